@@ -74,6 +74,8 @@ HARD_CALLEES = [
     ("option::unwrap_failed", "panic"),
     ("option::expect_failed", "panic"),
     ("result::unwrap_failed", "panic"),
+    ("Iterator::product", "iter_product"),   # integer product/sum panic on overflow (overflow checks on)
+    ("Iterator::sum", "iter_sum"),
     ("heapless::Vec::extend_from_slice", None),  # returns Result; not a panic
 ]
 HARD_PREFIXES = ["core::panicking::panic_const::", "core::slice::index::slice_"]
